@@ -83,7 +83,7 @@ def C08_init (cfg : EdCfg) (s : Ed) : SearchVars :=
 
 /-- the shown-entry invariant: the index is valid; WHATEVER THE FLAG the text shown is either the
     original line (nothing found yet: the index is still the newest entry) or the stored entry at the
-    loop's index (since the repair of D50 a failed search leaves the index alone); and if the success flag is set, then either nothing has been found yet (empty search text,
+    loop's index (since the repair of D51 a failed search leaves the index alone); and if the success flag is set, then either nothing has been found yet (empty search text,
     original line and cursor) or the text shown is the entry at the current index and the search text
     occurs in it at the cursor offset. -/
 def C08_Inv (cfg : EdCfg) (backup : Text) (backupPos : Nat) (c : SearchVars) : Prop :=
@@ -343,7 +343,7 @@ theorem C08_repeat_after_success (cfg : EdCfg) (s : Ed) (hne : cfg.hist ≠ []) 
     fun hk => (C08_repeat_reverse cfg c c' hinv.1 hk).2.2.1 hs',
     fun hk => (C08_repeat_forward cfg c c' hk).2.2.1 hs'⟩
 
-/-! ### Repeat from the entry ON DISPLAY (defect D50, repaired)
+/-! ### Repeat from the entry ON DISPLAY (defect D51, repaired)
 
 Before the repair `src/lib.rs` decremented/incremented `history_idx` *before* the search of a repeated
 C-r / C-s and did not put it back when that search failed: after a failed repeat the index was no
@@ -380,7 +380,7 @@ theorem C08_failed_repeat_keeps_index (cfg : EdCfg) (s : Ed) (hne : cfg.hist ≠
     before the key is a stored entry at index `i` (and at no other index: with duplicate entries
     "the index of the text shown" is ambiguous and the entry on display is `cfg.hist[c.hi]`, see
     `C08_index_is_shown`), then after a successful C-r (resp. C-s) no entry strictly between the newly
-    shown entry and `i` contains the search text.  Refuted before the repair of D50 (the replay
+    shown entry and `i` contains the search text.  Refuted before the repair of D51 (the replay
     above), PROVED now: `C08_repeat_from_shown`. -/
 def C08_repeat_from_shown_statement : Prop :=
   ∀ (cfg : EdCfg) (s : Ed) (keys : List Cmd) (c c' : SearchVars), cfg.hist ≠ [] →
@@ -434,7 +434,7 @@ def C08_wit_state (future : List (List UInt8)) : Ed :=
     inp := {}, hint := none, highlightChar := false, defaultPrompt := true,
     input := { buf := [], avail := [], future := future }, obs := [], validatorCalls := [] }
 
-/-- regression (D50), the automaton on the replay's keys `a b C-r Backspace`: the entry on display is
+/-- regression (D51), the automaton on the replay's keys `a b C-r Backspace`: the entry on display is
     "ab" (index 2), the failed C-r leaves the index at 2 and only drops the flag; the next C-r offers
     "xa" (index 1) -/
 theorem C08_failed_repeat_replay_automaton :
@@ -446,7 +446,7 @@ theorem C08_failed_repeat_replay_automaton :
       some { sb := ['a'], hi := 1, d := .reverse, succ := true, buf := ['x', 'a'], pos := 1 } := by
   decide +kernel
 
-/-- regression (D50), the replay through the MODEL's loop (keys a b C-r Backspace C-r Enter): Enter is
+/-- regression (D51), the replay through the MODEL's loop (keys a b C-r Backspace C-r Enter): Enter is
     handed back with the line "xa", cursor 1 (before the repair: "a", cursor 0) -/
 theorem C08_failed_repeat_replay_model :
     (reverseIncrementalSearch C08_wit_seg C08_wit_udata C08_wit_cfg 20
@@ -473,7 +473,7 @@ example :
       some { sb := ['a'], hi := 1, d := .reverse, succ := true, buf := ['x', 'a'], pos := 1 } ∧
     C08_wit_cfg.hist ≠ [] := by decide +kernel
 
-/-- regression (D50), the replay as a whole read of the model (keys C-r a b C-r Backspace C-r Enter on
+/-- regression (D51), the replay as a whole read of the model (keys C-r a b C-r Backspace C-r Enter on
     an empty line): the line returned is "xa" — what the repaired crate returns for the harness request
     quoted above (corpus/C08.txt) -/
 example :
